@@ -27,8 +27,9 @@ pub fn check(tier: Tier) -> Check {
         streams: vec![
             Stream::new("module", tier.pick(64, 640), |ctx, idx| {
                 c08::history_scenario(ctx, idx, "C09", "module", Focus::Table, 7)
-            }),
-            Stream::new("wire", tier.pick(128, 2400), crate::checks::c09wire::scenario),
+            })
+            .budget(tier.pick(900.0, 3000.0), tier.pick(64, 320)),
+            Stream::new("wire", tier.pick(128, 2400), crate::checks::c09wire::scenario).budget(tier.pick(900.0, 3000.0), tier.pick(128, 1200)),
         ],
         require: vec![
             ("closest_enumerations_checked", tier.pick(300_000, 30_000_000)),
